@@ -40,7 +40,8 @@ struct SimIO {
     Str console;                 // everything written to PlatformSpecificStdOut
     Vec<SimFile*> files;         // every fopen creates a new record (re-opening the same name too)
     uint64_t flushes, seq, writesAfterClose, badHandle;
-    SimIO() : flushes(0), seq(0), writesAfterClose(0), badHandle(0) {}
+    void (*flushHook)();         // called on every PlatformSpecificFlush (runsim: a forked child hands its flushed console bytes to the parent)
+    SimIO() : flushes(0), seq(0), writesAfterClose(0), badHandle(0), flushHook(0) {}
     void reset() {
         console.clear();
         for (size_t i = 0; i < files.size(); i++) { files[i]->~SimFile(); ::free(files[i]); }
@@ -70,7 +71,7 @@ inline void simFClose(PlatformSpecificFile file) {
     for (size_t i = 0; i < io.files.size(); i++) if ((PlatformSpecificFile)io.files[i] == file) { io.files[i]->open = false; io.files[i]->closes++; return; }
     io.badHandle++;
 }
-inline void simFlush() { simIO().flushes++; }
+inline void simFlush() { simIO().flushes++; if (simIO().flushHook) simIO().flushHook(); }
 
 // ------------------------------------------------------------------ rand
 struct SimRand {
